@@ -52,6 +52,10 @@ claim("C09", "reset-completeness (MIR field-write set vs reset assignments), mus
       "History independence: every CodeGenerator field any method mutates is assigned a fresh value in reset(), reached by finalize on every path with `true`; generate/generate_raw return only through finalize; cache hit replays exactly the recorded deltas. Seed independence: all std HashMap/HashSet iterations (66 today, receiver types resolved in MIR) are classified by their iterator chain; order-sensitive ones must be in a reviewed table; the validator sort keys on the map's own key; no hash map in a serialised blueprint type; rayon sites frozen.",
       "absence of every other nondeterminism (pointer ordering, optimiser internals, file discovery beyond module sequencing) is not decided; that module check order only reaches erased binder names is an assumption; review reasons were established by reading", "DESIGN.md §3 C09", "shape+flow")
 
+claim("C17", "ownership / who-may-touch analysis of Rc-counted data across the parallel section: unsafe-Send surface audit, must-happen-before (assertion take), MIR clone/drop facts of worker functions, deep-copy traversal completeness",
+      "The sharing is ruled out structurally: the unsafe impl Send/Sync set and the Rc-bearing fields they expose are the reviewed ones; every unit test's typed assertion is taken unconditionally before an indexed into_par_iter().map().collect(); worker-side functions clone/drop no AST-shared type and no whole test except the reviewed UnitTest copy; deep_clone rebuilds every Rc-bearing child and swallows only Rc-free variants; the constant cache stores no Rc and hands out deep copies on every path; no static holds an Rc.",
+      "no schedule is explored; aliasing that the type-level classification cannot see (an Rc<Constant> shared through a path other than the cache or generator state) is not decided", "DESIGN.md §3 C17", "shape+flow")
+
 
 def main():
     props = [json.loads(l) for l in open(os.path.join(HERE, "properties.jsonl"))]
